@@ -26,7 +26,7 @@ INTS = ['int1', 'int2', 'int3', 'außen4']      # (the last: a name on which low
 
 
 def floors(tier):
-    return {'plans_checked': 1500, 'len:positions': 15, 'len:spellings': 3, 'len:catalog_forms': 5, 'metamorphic_pairs': 500, 'model_queries': 200}
+    return {'plans_checked': 1500, 'len:positions': 16, 'len:spellings': 3, 'len:catalog_forms': 5, 'metamorphic_pairs': 500, 'model_queries': 200}
 
 
 def ceilings(tier):
@@ -79,7 +79,7 @@ def build(r, style, kind=None):
     kind = kind or r.choice(['from', 'join', 'join3', 'where-sub', 'target-sub', 'case-sub', 'func-sub', 'cte', 'insert-select', 'update-from',
                              'delete-sub', 'model', 'model-version', 'model-2tables', 'union', 'where-sub-join', 'target-sub-join',
                              'model-twice', 'model-twice', 'qualified-cols', 'delete-qualified', 'update-qualified', 'model-select',
-                             'model-sub-twice', 'cte-named-like-foreign-table', 'table-named-like-model', 'schema-named-like-integration', 'ts-model-join'])
+                             'model-sub-twice', 'cte-named-like-foreign-table', 'table-named-like-model', 'schema-named-like-integration', 'ts-model-join', 'native-query'])
     c.positions.add(kind)
     if kind == 'table-named-like-model':
         # a data table whose name is also the name of a model in the catalog (of the default project, or of another project)
@@ -93,10 +93,23 @@ def build(r, style, kind=None):
             f'INSERT INTO {t2} (c) SELECT a1.c FROM {tz} AS a1',
             f'SELECT a1.c FROM {tz} AS a1 UNION SELECT a2.c FROM {t2} AS a2',
             f'SELECT a1.c, a2.c FROM {t2} AS a2 LEFT JOIN {tz} AS a1 ON a1.k = a2.k']), c
+    if kind == 'native-query':
+        # a raw query handed to an integration by name: `int1 (select ...)`, alone or as a join member; the marker inside the raw text
+        # says where it belongs
+        home = r.choice(['int1', 'int2', 'int3'])
+        c.n += 1
+        m_ = f'tb_{c.n:02d}'
+        c.homes[m_] = home
+        nq = f'{spell(home, style)} (select * from {m_} where x > 1)'
+        if r.random() < 0.5:
+            return f'SELECT * FROM {nq}', c
+        other = r.choice([i for i in INTS if i != home])
+        return f'SELECT a1.c, a2.c FROM {nq} AS a1 JOIN {c.tbl(other)} AS a2 ON a1.k = a2.k', c
     if kind == 'schema-named-like-integration':
         home = r.choice(INTS)
         other = r.choice([i for i in INTS if i != home])
-        sch = r.choice([other, other, 'sch', 'mindsdb', 'proj', other.upper()])
+        # (the schema may also be spelled like the table's OWN integration: `int1.int1.t` is the table `int1.t` of int1)
+        sch = r.choice([other, other, 'sch', 'mindsdb', 'proj', other.upper(), home, home])
         ts_ = c.tbl(home, schema=sch)
         if r.random() < 0.2:
             return f'SELECT a1.c FROM {ts_} AS a1 WHERE a1.k = 1', c
@@ -276,7 +289,13 @@ def routing(plan):
     for st in iter_steps(plan.steps):
         cls = type(st).__name__
         if cls == 'FetchDataframeStep':
-            rows.append(('fetch', str(st.integration).lower(), markers_in(st.query) if st.query is not None else {}))
+            marks = markers_in(st.query) if st.query is not None else {}
+            if st.query is None and getattr(st, 'raw_query', None):
+                marks = {m_.lower(): [[m_]] for m_ in re.findall(r'\b(tb_\d+)\b', str(st.raw_query))}
+            rows.append(('fetch', str(st.integration).lower(), marks))
+            if str(st.integration) != str(st.integration).lower():
+                # the planner keeps integration names in lower case (its catalog keys): a step must name the integration that way
+                rows.append(('raw-integration-name', str(st.integration), {}))
         elif cls in ('InsertToTable', 'UpdateToTable', 'DeleteStep', 'SaveToTable', 'CreateTableStep'):
             rows.append(('dml:' + cls, [str(p) for p in st.table.parts], markers_in(getattr(st, 'where', None)) if cls == 'DeleteStep' else {}))
         elif cls.startswith('ApplyPredictor') or cls.startswith('ApplyTimeseries'):
@@ -297,6 +316,8 @@ def iter_steps(steps):
 def canon(rows):
     out = []
     for r in rows:
+        if r[0] == 'raw-integration-name':
+            continue
         if r[0] == 'fetch':
             out.append(('fetch', r[1], tuple(sorted(r[2]))))
         elif r[0].startswith('dml'):
@@ -310,6 +331,8 @@ def judge(case, rows, default_ns):
     out = []
     fetched = {}
     for r in rows:
+        if r[0] == 'raw-integration-name':
+            out.append(({'defect': 'step-names-integration-in-another-spelling'}, {'integration': r[1]}))
         if r[0] == 'fetch':
             integ, marks = r[1], r[2]
             for m, occ in marks.items():
